@@ -1353,6 +1353,8 @@ func propC01(r *Run) {
 		"LOCUS       X                          4 bp    DNA     linear   UNA 29-FEB-2020\nREFERENCE   1000(bases 1 to 4)\n  AUTHORS   x\n//\n",
 		"LOCUS       X                         -4 bp    DNA     linear   UNA 29-FEB-2020\nORIGIN      \n//\n",
 		"LOCUS       X                          4 bp    DNA     linear   UNA 29-FEB-2020\n//\n",
+		"LOCUS       X        9000000000000000000 bp    DNA     linear   UNA 29-FEB-2020\nCONTIG      join(U1:1..4)\n//\n",
+		"LOCUS       X        7000000000000000000 bp    DNA     linear   UNA 29-FEB-2020\nCONTIG      join(U1:1..4)\n//\n",
 		"LOCUS       X                          4 bp    DNA     linear   UNA 29-FEB-2020\nCONTIG      join(U1:1..4)\n//\n",
 		"LOCUS       X                          8 bp    DNA     linear   UNA 29-FEB-2020\nCONTIG      join(U1:1..4)\nORIGIN      \n        1 acgt\n//\n",
 		"LOCUS       X                          0 bp    DNA     linear   UNA 29-FEB-2020\nORIGIN      \n//\n",
